@@ -197,6 +197,17 @@ def run_scenario(sc):
                                 r = mk_record(spec)
                                 if r not in known and r not in recs:
                                     recs.append(r)
+                extra = rsp.get("extra")
+                if extra and any(r.type == 33 for r in recs):
+                    # like a real responder: TXT and the host's addresses ride along with an SRV answer (additionals).
+                    # Their order inside the datagram is not fixed by the protocol (python-zeroconf iterates a set):
+                    # "addr-first" puts the addresses before the SRV
+                    adds = [mk_record(sp) for key in ((NAME.lower(), 16), (rsp["host"].lower(), 1), (rsp["host"].lower(), 28)) for sp in own[key]]
+                    adds = [r for r in adds if r not in known and r not in recs]
+                    addrs = [r for r in adds if r.type in (1, 28)]
+                    rest = [r for r in recs + adds if r.type not in (1, 28)]
+                    have = [r for r in recs if r.type in (1, 28)]
+                    recs = (have + addrs + rest) if extra == "addr-first" else (rest + have + addrs)
                 if recs:
                     out = DNSOutgoing(const._FLAGS_QR_RESPONSE | const._FLAGS_AA)
                     for r in recs:
@@ -271,7 +282,20 @@ def run_scenario(sc):
             obs["t0"] = sim.loop.ms
             w.open("S", sim.loop.ms)
             try:
-                r = await info.async_request(zc, sc["timeout"], forced)
+                if sc.get("via") == "get_service_info":
+                    # through Zeroconf.async_get_service_info, which builds the info object itself: hand it ours
+                    import zeroconf._core as core
+
+                    o_cls = core.AsyncServiceInfo
+                    core.AsyncServiceInfo = lambda t, n: info if (t, n) == (TYPE_, sc.get("name", NAME)) else o_cls(t, n)
+                    try:
+                        r = await zc.async_get_service_info(TYPE_, sc.get("name", NAME), sc["timeout"], forced)
+                    finally:
+                        core.AsyncServiceInfo = o_cls
+                    obs["entry_object_ok"] = r is None or r is info
+                    r = r is not None
+                else:
+                    r = await info.async_request(zc, sc["timeout"], forced)
                 w.cur["ret"] = bool(r)
                 obs["result"] = bool(r)
             except asyncio.CancelledError:
@@ -450,11 +474,17 @@ def oracle(sc, obs):
             out.append(("C18:omitted-unheld", "query #%d (%s) omits the type-%d question for %s although no unstale answer is held"
                         % (i + 1, "QU" if b["asked"] == 1 else "QM", qtype, qname)))
     # --- with a responder that answers every question, the questions the lookup must ask lead to success
-    if sc.get("liveness") and obs["result"] is not True:
+    if sc.get("liveness") and obs["result"] is not True and sc["responder"].get("extra") == "addr-first":
+        out.append(("C18:address-before-srv-lost", "a responder answered the SRV question with one datagram carrying the host's address records "
+                    "before the SRV record; the lookup dropped the addresses (host unknown yet), never re-read them and failed at its timeout of %d ms "
+                    "with SRV and a live address in the cache" % timeout))
+    elif sc.get("liveness") and obs["result"] is not True:
         out.append(("C18:responder-not-heard", "a responder owning the instance answered every question within %d ms, "
                     "yet the lookup failed at its timeout of %d ms" % (sc["responder"]["delay"], timeout)))
     if obs.get("errors"):
         out.append(("C18:exception", "exception in the event loop: %s" % obs["errors"][0]))
+    if obs.get("entry_object_ok") is False:
+        out.append(("C18:entry-point-object", "async_get_service_info returned an object other than the one it ran the lookup on"))
     if obs.get("listener_left"):
         out.append(("C18:listener-left", "the lookup was still registered as a listener after it returned"))
     return out
@@ -474,6 +504,7 @@ def gen_scenario(rng, idx):
         if i >= 1 or False:
             delay = 999
     sc = {"timeout": timeout, "forced": rng.choice([0, 0, 0, 1, 2]), "draws": draws, "simseed": rng.randint(0, 10**6),
+          "via": "get_service_info" if rng.random() < 0.15 else None,
           "maxdelay": rng.choice([0, 0, 3, 20]), "warmup": rng.choice([0, 0, 137, 9990, 9999]), "pre": [], "events": [], "prehist": []}
 
     def age_for(ttl):
@@ -600,13 +631,15 @@ def gen_responder_scenario(rng, idx):
     stale or expired-but-unpurged SRV/TXT with no fresh copy in particular; nothing else arrives"""
     host = rng.choice(HOSTS)
     rsp = {"host": host, "port": rng.choice([80, 8080]), "prio": 0, "weight": 0, "text": rng.choice(["03613d30", "", "03613d31"]),
-           "a": rng.sample(V4, rng.randint(0, 2)), "aaaa": [], "ttl": rng.choice([120, 120, 4500, 10]), "delay": rng.choice([0, 1, 7, 20, 50])}
+           "a": rng.sample(V4, rng.randint(0, 2)), "aaaa": [], "ttl": rng.choice([120, 120, 4500, 10]), "delay": rng.choice([0, 1, 7, 20, 50]),
+           "extra": rng.choice([None, None, "srv-first", "addr-first"])}
     if not rsp["a"] or rng.random() < 0.3:
         rsp["aaaa"] = rng.sample(V6, rng.randint(1, 2))
     timeout = rng.choice([1000, 1500, 3000, 10000, rng.randint(1000, 10000)])
     sc = {"timeout": timeout, "forced": rng.choice([0, 0, 0, 1, 2]), "draws": [rng.choice([20, 120, rng.randint(20, 120)]) for _ in range(12)],
           "simseed": rng.randint(0, 10**6), "maxdelay": rng.choice([0, 0, 3]), "warmup": rng.choice([0, 0, 137, 9000]),
-          "pre": [], "events": [], "prehist": [], "responder": rsp, "liveness": True}
+          "pre": [], "events": [], "prehist": [], "responder": rsp, "liveness": True,
+          "via": "get_service_info" if rng.random() < 0.15 else None}
 
     def age_state(ttl, states):
         st = rng.choice(states)
